@@ -2,10 +2,12 @@
 #include "common.h"
 void registerBase64(std::map<std::string, vh::Op>& ops);
 void registerMime(std::map<std::string, vh::Op>& ops);
+void registerNet(std::map<std::string, vh::Op>& ops);
 int main()
 {
     std::map<std::string, vh::Op> ops;
     registerBase64(ops);
     registerMime(ops);
+    registerNet(ops);
     return vh::runLoop(ops);
 }
